@@ -34,7 +34,7 @@ class Acc:
             r = 0.0 if err == 0 else float("inf")
         else:
             r = float(err / tol)
-        if r > self.ratio.get(name, 0.0):
+        if name not in self.ratio or r > self.ratio[name]:
             self.ratio[name] = r
 
     def count(self, k, n=1):
@@ -132,6 +132,8 @@ def check_interp1(ev, acc):
             if "value" in checks:
                 nviol += check_spline_values(ev, acc, prop, x, xf, yf, M, bc, q, qf, lane_res,
                                              tol0, extrap, l, ty, nviol)
+            if "knots" in checks:
+                nviol += check_knots(ev, acc, prop, x, yf, q, lane_res, tol0, l, nviol)
             if "c2" in checks:
                 nviol += check_c2(ev, acc, prop, x, xf, q, qf, lane_res, tol0, l, nviol)
             if "bc" in checks:
@@ -222,6 +224,28 @@ def bc_name(bc):
     if bc == "Periodic":
         return "Periodic"
     return f"{bc[0][0]}/{bc[1][0]}"
+
+
+def check_knots(ev, acc, prop, x, yf, q, lane_res, tol0, l, nv):
+    nviol = 0
+    pos = {v: i for i, v in enumerate(x)}
+    for k, qq in enumerate(q):
+        i = pos.get(qq)
+        if i is None:
+            continue
+        r = lane_res[k]
+        acc.values += 1
+        if not X.is_finite(r):
+            err, bad = None, True
+        else:
+            err = abs(F(r) - yf[i])
+            acc.ratio_upd("knot-reproduced", err, tol0)
+            bad = err > tol0
+        if bad and nv + nviol < MAX_VIOL_PER_EVENT:
+            viol(acc, ev, f"{prop}:knot-not-reproduced",
+                 f"lane {l}: S(x[{i}]={qq!r}) = {r!r}, data value is {float(yf[i])!r}")
+            nviol += 1
+    return nviol
 
 
 def interval_samples(x, xf, q, qf, lane_res):
@@ -469,8 +493,10 @@ def check_file(path):
                 elif ev["model"] == "interp2":
                     check_interp2(ev, acc)
             except Exception as e:  # checker failure is never a violation
+                import traceback
                 acc.inconclusive += 1
-                acc.count("checker-error:" + type(e).__name__)
+                acc.count("checker-error:" + type(e).__name__ + ":" +
+                          traceback.format_exc().strip().splitlines()[-3].strip()[:120])
     return {"events": n, "values": acc.values, "viol": acc.viol, "ratio": acc.ratio,
             "inconclusive": acc.inconclusive, "counts": acc.counts}
 
